@@ -67,6 +67,7 @@ func convertToParagraph(data reflect.Value) (*Paragraph, error) {
 
 	paragraphType := reflect.TypeOf(Paragraph{})
 	var foundParagraph Paragraph = Paragraph{}
+	omitted := map[string]bool{}
 
 	for i := 0; i < data.NumField(); i++ {
 		field := data.Field(i)
@@ -96,6 +97,7 @@ func convertToParagraph(data reflect.Value) (*Paragraph, error) {
 
 		required := fieldType.Tag.Get("required") == "true"
 		if data == "" && !required {
+			omitted[paragraphKey] = true
 			continue
 		}
 
@@ -106,7 +108,16 @@ func convertToParagraph(data reflect.Value) (*Paragraph, error) {
 		order = append(order, paragraphKey)
 		values[paragraphKey] = data
 	}
-	para := foundParagraph.Update(Paragraph{Order: order, Values: values})
+	/* Fields of the embedded Paragraph that the struct knows about follow
+	 * the struct: one that is now empty is dropped, not written back with
+	 * the value it had when it was read. */
+	base := Paragraph{Order: []string{}, Values: map[string]string{}}
+	for _, key := range foundParagraph.Order {
+		if !omitted[key] {
+			base.Set(key, foundParagraph.Values[key])
+		}
+	}
+	para := base.Update(Paragraph{Order: order, Values: values})
 	return &para, nil
 }
 
